@@ -238,7 +238,7 @@ macro_rules! shape {
         }
     };
 }
-// expected to hold
+// expected to hold (only rcn_relative_ref, rcn_range finish under CBMC; the others are kept here but NOT registered: see kani/xlsxf.json "not_registered")
 shape!(rcn_relative_ref, 8, "A1");
 shape!(rcn_range, 10, "A1:B2");
 shape!(rcn_absolute_and_relative, 12, "$A$1+A1");
